@@ -125,8 +125,8 @@ ADDED = {
  "C16": "Also: replay quiescence is decided on the channels' queue counters (a reproduced start-up compaction race was repaired); nothing retired after publishing may be the published snapshot; log-file lists snapshot-first. HasLock reports a non-LOCK record gone only when no hold with its id exists. A compaction computes its input list once, before the load. The start-up compaction is started only after the replay wait. The temporary snapshot starts empty and the compaction's command carries every field HasLock reads (two defects repaired).",
  "C17": "Also: queue compaction and migration return the reference of every entry they drop. A function that answers a queued request itself tombstones it before scanning the wait queue.",
  "C18": "Also: AddProxy succeeds only after tracking the proxy. The code that registers a will does not return the registered command object to the pool. The will drain dispatches through the closing protocol object and every tracked proxy is repointed before the list is truncated; no reply is sent on the text reply channel once the connection is closed (a reproduced blocked Close was repaired). A lock command handed to the local engine is not freed by the caller; a re-INIT overwrites the client id only after the previous id's table entry is removed. The proxy re-routes through the client table only for an announced client id (defect repaired). A protocol's closed flag is set only by its own Close (known findings: two ADMIN branches mark the nested text protocol closed from outside, its wills never run).",
- "C03": "Also: the text protocol zeroes its request-id filter before handing a reply to the connection. UpdateLockedLock makes the request's command the hold's command on every path. Text handlers take the engine's answer out of the reply channel (a reproduced stale-reply defect of PUSH was repaired).",
- "C20": "Also: slice-and-cursor queues reset the cursor whenever the slice is re-based; the wait queue's overflow field and its mode sentinel change together. The holder queue's IterNodes follows the index convention of IterNodeQueues.",
+ "C03": "Also: the text protocol zeroes its request-id filter before handing a reply to the connection. UpdateLockedLock makes the request's command the hold's command on every path. Text handlers take the engine's answer out of the reply channel (a reproduced stale-reply defect of PUSH was repaired). Dominance rule shared with C02/R7: cancelWaitLock selects the waiter it answers only on the not-answered side of that entry's timeouted test (C03/R10).",
+ "C20": "Also: slice-and-cursor queues reset the cursor whenever the slice is re-based; the wait queue's overflow field and its mode sentinel change together. The holder queue's IterNodes follows the index convention of IterNodeQueues. Exit-path rule: Pop/PopRight/Head/Tail of the three deques return the empty answer only after both cursor coordinates were compared (C20/R8). SSA store rule: the five restructure passes free a node only at nodeIndex and lower nodeIndex in the same block (C20/R9).",
  "C19": "Also: acquire methods report success only for result 0; the client reader decodes every reply into a fresh object. Lock ids come from protocol.GenLockId only. Server side of Event.Wait: the wake-up pass grants a waiter at depth 0 only after testing its unlock_to_wait flag (defect repaired).",
 }
 
